@@ -550,22 +550,38 @@ variable {α : Type} [Field α] [LinearOrder α]
 maps an orthonormal `U[j]` to an orthonormal basis, whether the skip rule fires or a column `y/‖y‖` is appended
 (`ny² = Σ y²`; `ny ≠ 0` is needed exactly when a column is appended — this is what "skip almost zero vectors"
 guarantees).  Error histories and ALS quality remain numerical evidence (harness stream `greedy`). -/
-theorem gta_extend_orthonormal (thr : Option α) (U : Mat α) (v : Nat → α) (ny : α) (h : OrthoCols U)
+theorem gta_extend_orthonormal (rule : SkipRule α) (U : Mat α) (v : Nat → α) (ny nv : α) (h : OrthoCols U)
     (hny : ny * ny = sumN U.rows (fun i => gsResidual U v i * gsResidual U v i))
-    (hpos : (gtaExtend thr U v ny).cols = U.cols + 1 → ny ≠ 0) :
-    OrthoCols (gtaExtend thr U v ny) := gtaExtend_orthonormal thr U v ny h hny hpos
+    (hpos : (gtaExtend rule U v ny nv).cols = U.cols + 1 → ny ≠ 0) :
+    OrthoCols (gtaExtend rule U v ny nv) := gtaExtend_orthonormal rule U v ny nv h hny hpos
 
-/-- the skip rule as coded: `ny < thr` leaves the rank unchanged, otherwise it grows by exactly one -/
-theorem gta_extend_skip_rule (t : α) (U : Mat α) (v : Nat → α) (ny : α) :
-    (gtaExtend (some t) U v ny).cols = if ny < t then U.cols else U.cols + 1 := gtaExtend_cols t U v ny
+/-- the skip rule as coded now (fix 2f34e7d, `gta` and `gta_ls`): `ny ≤ c·‖v‖` or a complete basis leaves the
+rank unchanged, otherwise it grows by exactly one -/
+theorem gta_extend_skip_rule (c : α) (U : Mat α) (v : Nat → α) (ny nv : α) :
+    (gtaExtend (.relative c) U v ny nv).cols = if ny ≤ c * nv ∨ U.rows ≤ U.cols then U.cols else U.cols + 1 :=
+  gtaExtend_cols c U v ny nv
 
-/-- negation witness (the body of `gta_ls`, and of `gta` if the skip is lost): without the skip rule a direction
-inside the span (`y = 0`, `ny = 0`) is "normalised" and appended, and the basis is no longer orthonormal. -/
+/-- with that rule the rank of a mode never exceeds the mode size (so `UᵀU = I` stays possible) -/
+theorem gta_extend_rank_le_size (c : α) (U : Mat α) (v : Nat → α) (ny nv : α) (h : U.cols ≤ U.rows) :
+    (gtaExtend (.relative c) U v ny nv).cols ≤ (gtaExtend (.relative c) U v ny nv).rows :=
+  gtaExtend_rank_le c U v ny nv h
+
+/-- negation witness for the repaired finding `gta_ls-no-skip` (and for `gta` if the skip is lost): without a skip
+rule a direction inside the span (`y = 0`, `ny = 0`) is "normalised" and appended; the basis (two columns in a
+one-dimensional mode) is no longer orthonormal. -/
 theorem gta_extend_noskip_not_orthonormal :
-    ¬ OrthoCols (gtaExtend (none : Option Rat) ⟨1, 1, fun _ _ => 1⟩ (fun _ => 2) 0) := by
+    ¬ OrthoCols (gtaExtend (SkipRule.never : SkipRule Rat) ⟨1, 1, fun _ _ => 1⟩ (fun _ => 2) 0 2) := by
   intro h
   have h11 := h 1 1 (by decide) (by decide)
   norm_num [gtaExtend, gsResidual, sumN, sumL] at h11
+
+/-- negation witness for the repaired finding `gta-skip-threshold-absolute`: with the absolute test `ny < 1e-14`
+a residual of relative size `1e-13` (pure rounding noise of a vector of norm `1`... here `ny = 1e-13`, `‖v‖ = 1`)
+is appended to an already complete one-dimensional basis, which the repaired rule refuses. -/
+theorem gta_extend_absolute_appends_noise :
+    (gtaExtend (SkipRule.absolute (1 / 100000000000000 : Rat)) ⟨1, 1, fun _ _ => 1⟩ (fun _ => 1) (1 / 10000000000000) 1).cols = 2 ∧
+    (gtaExtend (SkipRule.relative (1 / 10000000000 : Rat)) ⟨1, 1, fun _ _ => 1⟩ (fun _ => 1) (1 / 10000000000000) 1).cols = 1 := by
+  constructor <;> decide +kernel
 end Greedy
 
 /-! ## adaptive cross approximation -/
